@@ -23,6 +23,9 @@ const maxDepth = 4
 type Describer struct {
 	fn    *ssa.Function
 	stack map[ssa.Value]bool
+	inOps bool
+	// MakeLen: render the length of make([]T, n) (data-flow descriptors of the stream wrappers)
+	MakeLen bool
 }
 
 func NewDescriber(fn *ssa.Function) *Describer {
@@ -64,6 +67,11 @@ func (d *Describer) val(v ssa.Value, depth int) string {
 	}
 	if depth > maxDepth {
 		return "…"
+	}
+	if _, isSlice := v.Type().Underlying().(*types.Slice); isSlice && !d.MakeLen {
+		if _, isConst := v.(*ssa.Const); !isConst && localBuffer(v, 0) {
+			return d.bufDesc(v, depth)
+		}
 	}
 	switch x := v.(type) {
 	case *ssa.Parameter:
@@ -155,7 +163,10 @@ func (d *Describer) val(v ssa.Value, depth int) string {
 		}
 		return d.call(&x.Call, depth) + d.objOps(x, depth)
 	case *ssa.MakeSlice:
-		return "make(" + typeStr(x.Type()) + ", " + d.val(x.Len, depth+1) + ")"
+		if d.MakeLen {
+			return "make(" + typeStr(x.Type()) + ", " + d.val(x.Len, depth+1) + ")"
+		}
+		return "make(" + typeStr(x.Type()) + ")"
 	case *ssa.MakeMap:
 		return "make(" + typeStr(x.Type()) + ")"
 	case *ssa.MakeChan:
@@ -170,10 +181,37 @@ func (d *Describer) val(v ssa.Value, depth int) string {
 		if d.stack[x] {
 			return "phi~"
 		}
-		d.stack[x] = true
-		defer delete(d.stack, x)
+		// flatten nests of phis (loop rotation, range vs index loops give different nestings of the
+		// same merge): the value is one of the non-phi leaves; references back into the nest are "phi~"
+		nest := map[*ssa.Phi]bool{}
+		var leaves []ssa.Value
+		var walk func(p *ssa.Phi)
+		walk = func(p *ssa.Phi) {
+			if nest[p] {
+				return
+			}
+			nest[p] = true
+			for _, e := range p.Edges {
+				if q, ok := e.(*ssa.Phi); ok {
+					if !d.stack[q] {
+						walk(q)
+					}
+					continue
+				}
+				leaves = append(leaves, e)
+			}
+		}
+		walk(x)
+		for p := range nest {
+			d.stack[p] = true
+		}
+		defer func() {
+			for p := range nest {
+				delete(d.stack, p)
+			}
+		}()
 		set := map[string]bool{}
-		for _, e := range x.Edges {
+		for _, e := range leaves {
 			set[d.val(e, depth+1)] = true
 		}
 		var parts []string
@@ -189,9 +227,51 @@ func (d *Describer) val(v ssa.Value, depth int) string {
 // overwriting mutators of kyber.Point / kyber.Scalar: the result is a function
 // of the operands only, whichever scratch object receives it.
 var overwriting = map[string]bool{"Add": true, "Sub": true, "Neg": true, "Mul": true, "Set": true, "Div": true, "Inv": true,
-	"SetBytes": true, "SetInt64": true, "Zero": true, "One": true}
+	"SetBytes": true, "SetInt64": true, "Zero": true, "One": true, "Pick": true}
+
+// localBuffer: a slice assembled inside the function (make / append / merge of those), as opposed
+// to a parameter, a field or the result of a call.
+func localBuffer(v ssa.Value, depth int) bool {
+	if depth > 6 {
+		return false
+	}
+	switch x := v.(type) {
+	case *ssa.MakeSlice:
+		return true
+	case *ssa.Slice:
+		return localBuffer(x.X, depth+1)
+	case *ssa.Phi:
+		for _, e := range x.Edges {
+			if _, ok := e.(*ssa.Phi); ok {
+				continue
+			}
+			if c, ok := e.(*ssa.Const); ok && c.Value == nil {
+				continue
+			}
+			if !localBuffer(e, depth+1) {
+				return false
+			}
+		}
+		return true
+	case *ssa.Call:
+		if b, ok := x.Call.Value.(*ssa.Builtin); ok && b.Name() == "append" {
+			return true
+		}
+	}
+	return false
+}
 
 func (d *Describer) call(c *ssa.CallCommon, depth int) string {
+	if b, ok := c.Value.(*ssa.Builtin); ok && (b.Name() == "len" || b.Name() == "cap") && len(c.Args) == 1 && localBuffer(c.Args[0], 0) {
+		// how a local buffer was put together (make+copy or append) is not part of the key
+		return b.Name() + "(local)"
+	}
+	if b, ok := c.Value.(*ssa.Builtin); ok && (b.Name() == "len" || b.Name() == "cap") && len(c.Args) == 1 {
+		// also when the buffer comes out of an inlined helper
+		if a := d.val(c.Args[0], depth+1); strings.HasPrefix(a, "phi{append(") || strings.HasPrefix(a, "phi{make(") || strings.HasPrefix(a, "make(") || strings.HasPrefix(a, "append(") {
+			return b.Name() + "(local)"
+		}
+	}
 	var args []string
 	if c.IsInvoke() {
 		drop := false
@@ -318,10 +398,19 @@ func isNilConst(v ssa.Value) bool {
 // operations applied to it as a receiver: "{UnmarshalBinary(@, P3[:n])|...}".
 // This tells apart the many results of one factory (g.Point(), g.Scalar(),
 // sha512.New()) by what is loaded into them, independent of statement order.
+// objOpsSkip: read-only methods say nothing about what an object holds.
+var objOpsSkip = map[string]bool{"Equal": true, "String": true, "MarshalBinary": true, "MarshalTo": true, "MarshalSize": true, "Sum": true,
+	"Clone": true, "IsCanonical": true, "HasSmallOrder": true, "IsInCorrectGroup": true, "Data": true, "Size": true, "Len": true, "Bytes": true,
+	"Check": true, "Eval": true, "Cmp": true, "Sign": true}
+
 func (d *Describer) objOps(v ssa.Value, depth int) string {
-	if d.stack[v] || depth > 1 || !refLikeT(v.Type()) {
+	// shown wherever the object appears (independent of nesting depth, so that the same object has
+	// the same descriptor inline and inside an extracted helper); its arguments have a fixed small budget
+	if d.stack[v] || d.inOps || depth >= maxDepth || !refLikeT(v.Type()) {
 		return ""
 	}
+	d.inOps = true
+	defer func() { d.inOps = false }()
 	refs := v.Referrers()
 	if refs == nil {
 		return ""
@@ -346,6 +435,12 @@ func (d *Describer) objOps(v ssa.Value, depth int) string {
 		if len(rest) == 0 {
 			continue
 		}
+		if c.Method != nil && objOpsSkip[c.Method.Name()] {
+			continue
+		}
+		if f := c.StaticCallee(); f != nil && objOpsSkip[f.Name()] {
+			continue
+		}
 		name := c.Method
 		var mname string
 		if name != nil {
@@ -355,7 +450,7 @@ func (d *Describer) objOps(v ssa.Value, depth int) string {
 		}
 		var as []string
 		for _, a := range rest {
-			as = append(as, d.val(a, depth+2))
+			as = append(as, d.val(a, maxDepth-1))
 		}
 		set[mname+"(@, "+strings.Join(as, ", ")+")"] = true
 	}
@@ -407,6 +502,82 @@ var paramTok = regexp.MustCompile(`\bP(\d+)\b`)
 // SubstParams replaces the parameter tokens P<i> of a callee descriptor by the
 // caller's argument descriptors.
 func SubstParams(desc string, args []string) string {
+	return ResortSymmetric(substParams(desc, args))
+}
+
+// ResortSymmetric re-sorts the two operands of a top-level symmetric predicate
+// ("eq(a, b)", "X.Equal(a, b)") after a substitution changed them.
+func ResortSymmetric(desc string) string {
+	open := strings.Index(desc, "(")
+	if open < 0 || !strings.HasSuffix(desc, ")") {
+		return desc
+	}
+	name := desc[:open]
+	if strings.HasPrefix(desc, "(") {
+		// "(T).Method(args)": find the call's opening parenthesis after the receiver type
+		end := matchParen(desc, 0)
+		if end < 0 || end+1 >= len(desc) {
+			return desc
+		}
+		rest := desc[end+1:]
+		o2 := strings.Index(rest, "(")
+		if o2 < 0 {
+			return desc
+		}
+		name = desc[:end+1+o2]
+		open = end + 1 + o2
+	}
+	if name != "eq" && !isSymmetric(name) {
+		return desc
+	}
+	if matchParen(desc, open) != len(desc)-1 {
+		return desc
+	}
+	inner := desc[open+1 : len(desc)-1]
+	// split at the top-level ", "
+	depth, cut := 0, -1
+	for i := 0; i < len(inner); i++ {
+		switch inner[i] {
+		case '(', '[', '{':
+			depth++
+		case ')', ']', '}':
+			depth--
+		case ',':
+			if depth == 0 && i+1 < len(inner) && inner[i+1] == ' ' {
+				if cut >= 0 {
+					return desc // more than two operands
+				}
+				cut = i
+			}
+		}
+	}
+	if cut < 0 {
+		return desc
+	}
+	a, b := inner[:cut], inner[cut+2:]
+	if a > b {
+		a, b = b, a
+	}
+	return name + "(" + a + ", " + b + ")"
+}
+
+func matchParen(s string, open int) int {
+	depth := 0
+	for i := open; i < len(s); i++ {
+		switch s[i] {
+		case '(':
+			depth++
+		case ')':
+			depth--
+			if depth == 0 {
+				return i
+			}
+		}
+	}
+	return -1
+}
+
+func substParams(desc string, args []string) string {
 	return paramTok.ReplaceAllStringFunc(desc, func(m string) string {
 		var i int
 		fmt.Sscanf(m, "P%d", &i)
@@ -491,3 +662,95 @@ func (d *Describer) inlineHelper(c *ssa.CallCommon, k int, depth int) (string, b
 }
 
 func isErrT(t types.Type) bool { return types.Identical(t, types.Universe.Lookup("error").Type()) }
+
+// bufDesc describes a slice assembled inside the function by WHAT was put into
+// it — the operands appended to it or copied into it — not by how (make+copy,
+// append onto an empty slice, which loop shape): "buf{src1|src2}".
+func (d *Describer) bufDesc(v ssa.Value, depth int) string {
+	if d.stack[v] {
+		return "buf~"
+	}
+	seen := map[ssa.Value]bool{}
+	srcs := map[string]bool{}
+	var marked []ssa.Value
+	var walk func(x ssa.Value)
+	walk = func(x ssa.Value) {
+		if x == nil || seen[x] {
+			return
+		}
+		seen[x] = true
+		d.stack[x] = true
+		marked = append(marked, x)
+		switch y := x.(type) {
+		case *ssa.Phi:
+			for _, e := range y.Edges {
+				walk(e)
+			}
+		case *ssa.Slice:
+			walk(y.X)
+		case *ssa.MakeSlice:
+			// copy(dst, src) with dst rooted at this make
+			if refs := y.Referrers(); refs != nil {
+				for _, r := range *refs {
+					d.copySources(r, y, srcs, depth)
+				}
+			}
+		case *ssa.Call:
+			if b, ok := y.Call.Value.(*ssa.Builtin); ok && b.Name() == "append" {
+				walk(y.Call.Args[0])
+				for _, a := range y.Call.Args[1:] {
+					if !seen[a] && !(func() bool { _, isP := a.(*ssa.Phi); return isP && d.stack[a] })() {
+						if localBuffer(a, 0) && !d.stack[a] {
+							srcs[d.val(a, depth+1)] = true
+						} else {
+							srcs[d.val(a, depth+1)] = true
+						}
+					}
+				}
+			}
+		}
+	}
+	walk(v)
+	defer func() {
+		for _, m := range marked {
+			delete(d.stack, m)
+		}
+	}()
+	var parts []string
+	for s := range srcs {
+		if s != "nil" {
+			parts = append(parts, s)
+		}
+	}
+	sort.Strings(parts)
+	return "buf{" + strings.Join(parts, "|") + "}"
+}
+
+func (d *Describer) copySources(r ssa.Instruction, mk *ssa.MakeSlice, srcs map[string]bool, depth int) {
+	switch x := r.(type) {
+	case *ssa.Call:
+		if b, ok := x.Call.Value.(*ssa.Builtin); ok && b.Name() == "copy" && len(x.Call.Args) == 2 {
+			dst := x.Call.Args[0]
+			for {
+				if sl, ok := dst.(*ssa.Slice); ok {
+					dst = sl.X
+					continue
+				}
+				break
+			}
+			if dst == ssa.Value(mk) {
+				srcs[d.val(x.Call.Args[1], depth+1)] = true
+			}
+		}
+	case *ssa.Slice:
+		if refs := x.Referrers(); refs != nil {
+			for _, rr := range *refs {
+				if c, ok := rr.(*ssa.Call); ok {
+					if b, ok := c.Call.Value.(*ssa.Builtin); ok && b.Name() == "copy" && len(c.Call.Args) == 2 && c.Call.Args[0] == ssa.Value(x) {
+						srcs[d.val(c.Call.Args[1], depth+1)] = true
+					}
+				}
+			}
+		}
+	}
+}
